@@ -120,6 +120,14 @@ class Closure:
         self.func, self.env, self.self_obj = func, env, self_obj
 
 
+class NewTypeV:
+    def __init__(self, name: str):
+        self.name = name
+
+    def __repr__(self) -> str:
+        return f"NewType({self.name})"
+
+
 class ModRef:
     def __init__(self, dotted: str):
         self.dotted = dotted
@@ -247,6 +255,9 @@ class Evaluator:
         if mod in self.prog.modules and nm in self.prog.modules[mod].assigns:
             sts = self.prog.modules[mod].assigns[nm]
             if len(sts) == 1 and getattr(sts[0], "value", None) is not None:
+                v0 = sts[0].value
+                if isinstance(v0, ast.Call) and unparse(v0.func).split(".")[-1] == "NewType":
+                    return NewTypeV(d)  # `X = NewType("X", T)`: calling X returns its argument
                 try:
                     return Const(ast.literal_eval(sts[0].value))
                 except Exception:
@@ -643,6 +654,15 @@ class Evaluator:
             return d
         if isinstance(e, ast.Subscript):
             base = self.eval(e.value, env, scope)
+            if isinstance(e.slice, ast.Slice):
+                parts_ = [self.eval(x, env, scope) if x is not None else Const(None) for x in (e.slice.lower, e.slice.upper, e.slice.step)]
+                if all(isinstance(x, Const) and (x.v is None or isinstance(x.v, int)) for x in parts_):
+                    sl = slice(*[x.v for x in parts_])
+                    if isinstance(base, Const) and isinstance(base.v, (str, bytes, list, tuple)):
+                        return Const(base.v[sl])
+                    if isinstance(base, (list, tuple)):
+                        return list(base)[sl]
+                return TOP
             key = self.eval(e.slice, env, scope)
             return self.subscript(base, key, e)
         if isinstance(e, ast.JoinedStr):
@@ -934,6 +954,8 @@ class Evaluator:
             r = self.oracle(name, args, kwargs, e)
             if r is not NOT_HANDLED:
                 return r
+        if isinstance(fn, NewTypeV) and len(args) == 1 and not kwargs:
+            return args[0]
         if isinstance(fn, Closure):
             if fn.self_obj is not None:
                 args = [fn.self_obj] + args
